@@ -68,4 +68,15 @@ CHECKS = {
         assumptions=COMMON_ASSUME + ["bounded part: smoothing>=0.05, max<=300, Vegas probe multiplier>=5, rtt tolerance>=1, long window in [1,200], "
                                      "Gradient initial>=floor (DESIGN 8)"],
     ),
+    "C08": dict(
+        pkg="c08", race=False, shards=(4, 16), timeout_s=(300, 1800),
+        technique="relational two-run monitor: identically seeded twin instances, same history, final sample differing only in RTT",
+        level_text="Twin instances of Vegas/Gradient/Gradient2 are built under the same math/rand seed (identical probe decisions), replay the same "
+                   "PRNG prefix, then receive a final sample with rtt_lo < rtt_hi (both >= current baseline, same in-flight and drop flag); the "
+                   "monitor requires estimate(rtt_hi) <= estimate(rtt_lo). Twins that diverge before the final sample are inconclusive. Exploration over seeded pairs.",
+        require=["pairs", "pairs_strictly_ordered", "pairs_where_estimate_moved"],
+        rule="pair = (algorithm, valid config, prefix of 0-120 samples, rtt_lo/rtt_hi with relative gap >= 1e-6 and <= 2^40, in-flight, drop flag); "
+             "non-trivial = at least one twin's estimate moved on the final sample; distinct = distinct (config, prefix length, rtt pair, in-flight, drop).",
+        assumptions=COMMON_ASSUME + ["math/rand.Seed is effective for the library's jitter (harness go.mod 'go 1.23' keeps randseednop=0); twins are checked for equal state before the final sample"],
+    ),
 }
